@@ -28,6 +28,7 @@ UpTo2(S) == {H \in SUBSET S : Cardinality(H) <= 2}
 \* (TLC evaluates constant definitions eagerly: the guard keeps W! orders from being enumerated for the 20 fields)
 AllOrders == IF W > 5 THEN {} ELSE {[i \in 1..W |-> Canon[p[i]]] : p \in Bij(W)}
 SmallInit == UNION {{MkTable(o, n, H) : H \in UpTo2((1..n) \X (1..W))} : o \in AllOrders, n \in 1..2}
+DeriveSmallInit == IF W > 5 THEN {} ELSE {MkTable(o, n, H) : o \in {Canon, <<"d", "b", "a", "c">>}, n \in 1..2, H \in {{}, {<<1, 1>>}, {<<1, 4>>, <<1, 2>>}}}
 TinyInit == {MkTable(<<"d", "c", "b", "a">>, 1, {})}
 AllPos == 1..W
 
